@@ -205,6 +205,18 @@ where
   }
 }
 
+/// moderate-magnitude endpoint (adaptor runs): zeros, ±, wavelength- and frequency-like
+fn gen_small(r: &mut Rng) -> f64 {
+  match r.below(6) {
+    0 => 0.0,
+    1 => -0.0,
+    2 => r.range(-1.0, 1.0),
+    3 => r.log_range(1e-9, 1e-5),
+    4 => r.log_range(1e14, 1e16),
+    _ => (r.below(21) as f64) - 10.0,
+  }
+}
+
 fn rel_close(a: f64, b: f64, tol: f64, scale: f64) -> bool {
   if a.to_bits() == b.to_bits() || a == b {
     return true;
@@ -570,7 +582,7 @@ fn pools_part(ctx: &mut Ctx) {
 
   // ---- (a) traversal of the grids themselves through rayon (collect / enumerate)
   let grids1: Vec<(f64, f64, usize)> = {
-    let mut g = vec![(0.0, 1.0, 0), (3.3, 4.0, 1), (0.0, 0.9, 10), (-1.0, 1.0, 201), (1400e-9, 1600e-9, 1000)];
+    let mut g = vec![(0.0, 1.0, 0), (3.3, 4.0, 1), (1.0, -1.0, 2), (2.5, 2.5, 7), (0.0, 0.9, 10), (-1.0, 1.0, 201), (1400e-9, 1600e-9, 1000)];
     let extra = if ctx.thorough { 12 } else { 3 };
     for _ in 0..extra {
       let a = gen_endpoint(&mut ctx.rng);
@@ -613,6 +625,8 @@ fn pools_part(ctx: &mut Ctx) {
     let mut g = vec![
       ((0.0, 1.0, 0), (0.0, 1.0, 5)),
       ((0.0, 1.0, 1), (2.0, 3.0, 1)),
+      ((1.0, -1.0, 3), (2.5, 2.5, 2)),
+      ((0.0, 1.0, 2), (0.0, 1.0, 1)),
       ((2.0, 3.0, 2), (2.0, 3.0, 2)),
       ((0.0, 100.0, 11), (0.0, 10.0, 6)),
       ((1400e-9, 1600e-9, 100), (1500e-9, 1700e-9, 37)),
@@ -655,9 +669,9 @@ fn pools_part(ctx: &mut Ctx) {
   // ---- (b) every `*_range` function: bit-identical arrays for every pool size
   let spdc = SPDC::default();
   let shapes: Vec<(usize, usize, bool)> = if ctx.thorough {
-    vec![(1, 1, true), (2, 3, true), (7, 5, true), (16, 16, false), (33, 20, false), (64, 48, false)]
+    vec![(0, 3, true), (1, 1, true), (1, 2, true), (2, 1, true), (2, 3, true), (7, 5, true), (16, 16, false), (33, 20, false), (64, 48, false)]
   } else {
-    vec![(2, 3, true), (9, 8, false), (20, 20, false)]
+    vec![(0, 3, true), (1, 2, true), (2, 3, true), (9, 8, false), (20, 20, false)]
   };
   let kinds = [RangeKind::Wavelength, RangeKind::Frequency, RangeKind::SumDiff, RangeKind::FlatWavelength, RangeKind::FlatFrequency];
   // Per-point evaluation is sequential (hence the arrays must be bit-identical) for every function
@@ -838,7 +852,14 @@ fn reduce_verdict(ctx: &mut Ctx, what: &str, r: Result<Option<Complex<f64>>, ()>
         *reference = Some(v);
       }
       Some(r0) => {
-        let e = crel(*r0, v);
+        // HOM rate = ½(1 − Σ/N): measured against max(|rate|, ½), see the sweep sub-run
+        let e = if what.contains("hom_rate") {
+          let d = ((v.re - r0.re).powi(2) + (v.im - r0.im).powi(2)).sqrt();
+          let m = (v.re.hypot(v.im)).max(r0.re.hypot(r0.im)).max(0.5);
+          if d == 0.0 { 0.0 } else { d / m }
+        } else {
+          crel(*r0, v)
+        };
         let ok = e <= 1e-12;
         ctx.s("C15.reduce", ok, &format!("reduce/{}/{}", what, if ok { "ok" } else { "differs" }), &format!("{} rel={:.3e} value=({:e},{:e})", detail, e, v.re, v.im));
       }
@@ -874,6 +895,9 @@ struct SweepData {
   amp: Vec<Complex<f64>>,
   amp_sw: Vec<Complex<f64>>,
   taus: Vec<f64>,
+  lines: Vec<(f64, f64, usize)>,
+  planes: Vec<((f64, f64, usize), (f64, f64, usize))>,
+  integrators: Vec<(&'static str, Integrator, bool, bool)>,
   divs1: Vec<usize>,
   divs2: Vec<usize>,
 }
@@ -886,6 +910,136 @@ enum Val {
   Bits(Vec<u64>),
   /// a traversal already compared with the sequential one inside the pool
   Flag(bool),
+  /// an array each of whose elements is itself a parallel reduction (blocks of `.1` elements per
+  /// function): element-wise 1e-12 relative (peak-floored, see `worst_rel`)
+  Arr(Vec<f64>, usize),
+}
+
+/// exact-size contract of a producer's sequential iterator (rayon's Enumerate/Zip/Rev adaptors call
+/// `len()` on partially consumed iterators): after j pulls from either end it reports n − j
+fn exact_size<I: DoubleEndedIterator + ExactSizeIterator>(mut it: I, n: usize) -> bool {
+  let mut ok = it.len() == n;
+  let mut left = n;
+  for j in 0..n + 2 {
+    let v = if j % 3 == 1 { it.next_back() } else { it.next() };
+    if v.is_some() {
+      left -= 1;
+    }
+    ok = ok && it.len() == left;
+  }
+  ok && left == 0
+}
+
+/// rayon adaptors driven through a custom producer: every pipeline must deliver what the same
+/// operation on the sequential traversal `seq` delivers (`eq` = the statement's point equality)
+fn adaptors<T, P>(tag: &str, mk: &(dyn Fn() -> P + Sync), seq: &[T], eq: &(dyn Fn(&T, &T) -> bool + Sync), out: &mut Vec<(String, Option<Val>)>)
+where
+  T: Copy + Send + Sync + 'static,
+  P: IndexedParallelIterator<Item = T>,
+{
+  let n = seq.len();
+  let same = |a: &[T], b: &[T]| a.len() == b.len() && a.iter().zip(b).all(|(x, y)| eq(x, y));
+  let mut ks = vec![0usize, 1, n / 2, n.saturating_sub(1), n, n + 1];
+  ks.sort();
+  ks.dedup();
+  let mut push = |name: String, r: Option<bool>| out.push((format!("what=adaptor/{} {}", name, tag), r.map(Val::Flag)));
+  push("len".into(), guard(|| mk().len() == n && mk().opt_len() == Some(n)));
+  push("rev".into(), guard(|| {
+    let v: Vec<T> = mk().rev().collect();
+    let mut e = seq.to_vec();
+    e.reverse();
+    same(&v, &e)
+  }));
+  push("enumerate".into(), guard(|| {
+    let v: Vec<(usize, T)> = mk().enumerate().collect();
+    v.len() == n && v.iter().enumerate().all(|(i, p)| p.0 == i && eq(&p.1, &seq[i]))
+  }));
+  push("enumerate.rev".into(), guard(|| {
+    let v: Vec<(usize, T)> = mk().enumerate().rev().collect();
+    v.len() == n && v.iter().enumerate().all(|(i, p)| p.0 == n - 1 - i && eq(&p.1, &seq[n - 1 - i]))
+  }));
+  push("rev.enumerate".into(), guard(|| {
+    let v: Vec<(usize, T)> = mk().rev().enumerate().collect();
+    v.len() == n && v.iter().enumerate().all(|(i, p)| p.0 == i && eq(&p.1, &seq[n - 1 - i]))
+  }));
+  for &k in ks.iter() {
+    push(format!("skip({})", k), guard(|| same(&mk().skip(k).collect::<Vec<T>>(), &seq[k.min(n)..])));
+    push(format!("take({})", k), guard(|| same(&mk().take(k).collect::<Vec<T>>(), &seq[..k.min(n)])));
+    push(format!("skip({}).take(2)", k), guard(|| {
+      let lo = k.min(n);
+      same(&mk().skip(k).take(2).collect::<Vec<T>>(), &seq[lo..(lo + 2).min(n)])
+    }));
+    push(format!("take({}).rev", k), guard(|| {
+      let mut e = seq[..k.min(n)].to_vec();
+      e.reverse();
+      same(&mk().take(k).rev().collect::<Vec<T>>(), &e)
+    }));
+    push(format!("zip(0..{})", k), guard(|| {
+      let v: Vec<(T, usize)> = mk().zip((0..k).into_par_iter()).collect();
+      v.len() == k.min(n) && v.iter().enumerate().all(|(i, p)| p.1 == i && eq(&p.0, &seq[i]))
+    }));
+  }
+  push("zip(self)".into(), guard(|| {
+    let v: Vec<(T, T)> = mk().zip(mk()).collect();
+    v.len() == n && v.iter().enumerate().all(|(i, p)| eq(&p.0, &seq[i]) && eq(&p.1, &seq[i]))
+  }));
+  push("zip(self.rev)".into(), guard(|| {
+    let v: Vec<(T, T)> = mk().zip(mk().rev()).collect();
+    v.len() == n && v.iter().enumerate().all(|(i, p)| eq(&p.0, &seq[i]) && eq(&p.1, &seq[n - 1 - i]))
+  }));
+  push("chain(self)".into(), guard(|| {
+    let v: Vec<T> = mk().chain(mk()).collect();
+    let mut e = seq.to_vec();
+    e.extend_from_slice(seq);
+    same(&v, &e)
+  }));
+  push("chain(self).skip(n-1).take(2)".into(), guard(|| {
+    let v: Vec<T> = mk().chain(mk()).skip(n.saturating_sub(1)).take(2).collect();
+    let mut e = seq.to_vec();
+    e.extend_from_slice(seq);
+    let lo = n.saturating_sub(1).min(e.len());
+    same(&v, &e[lo..(lo + 2).min(e.len())])
+  }));
+  push("interleave(self)".into(), guard(|| {
+    let v: Vec<T> = mk().interleave(mk()).collect();
+    let e: Vec<T> = seq.iter().flat_map(|x| [*x, *x]).collect();
+    same(&v, &e)
+  }));
+  for m in [1usize, 2, 3, n.max(1), n + 1] {
+    push(format!("with_min_len({})", m), guard(|| same(&mk().with_min_len(m).collect::<Vec<T>>(), seq)));
+    push(format!("with_max_len({})", m), guard(|| same(&mk().with_max_len(m).collect::<Vec<T>>(), seq)));
+    push(format!("step_by({})", m), guard(|| {
+      let e: Vec<T> = seq.iter().step_by(m).copied().collect();
+      same(&mk().step_by(m).collect::<Vec<T>>(), &e)
+    }));
+    push(format!("chunks({})", m), guard(|| {
+      let v: Vec<Vec<T>> = mk().chunks(m).collect();
+      let e: Vec<Vec<T>> = seq.chunks(m).map(|c| c.to_vec()).collect();
+      v.len() == e.len() && v.iter().zip(e.iter()).all(|(a, b)| same(a, b))
+    }));
+    push(format!("with_max_len({}).enumerate.skip(1)", m), guard(|| {
+      let v: Vec<(usize, T)> = mk().with_max_len(m).enumerate().skip(1).collect();
+      v.len() == n.saturating_sub(1) && v.iter().enumerate().all(|(i, p)| p.0 == i + 1 && eq(&p.1, &seq[i + 1]))
+    }));
+  }
+  push("collect_into_vec".into(), guard(|| {
+    let mut v: Vec<T> = Vec::new();
+    mk().collect_into_vec(&mut v);
+    same(&v, seq)
+  }));
+  push("fold.collect-lengths".into(), guard(|| {
+    let parts: Vec<usize> = mk().fold(|| 0usize, |acc, _| acc + 1).collect();
+    parts.iter().sum::<usize>() == n && mk().count() == n
+  }));
+  if n > 0 {
+    let j = (2 * n) / 3;
+    push("position_first".into(), guard(|| {
+      // first position whose point equals sequential point j (earlier duplicates count too)
+      let e = seq.iter().position(|x| eq(x, &seq[j]));
+      mk().position_first(|x| eq(&x, &seq[j])) == e
+    }));
+    push("find_last/enumerate".into(), guard(|| mk().enumerate().find_last(|p| p.0 <= j).map(|p| p.0 == j && eq(&p.1, &seq[j])).unwrap_or(false)));
+  }
 }
 
 /// every reduction / range evaluation / traversal on every grid, each guarded:
@@ -962,6 +1116,103 @@ fn sweep_all(d: &SweepData) -> Vec<(String, Option<Val>)> {
       }
     }
   }
+  // amplitude scales down to 1e-30 and up to 1e+30 (the statement has no range restriction)
+  for &(nx, ny) in [(5usize, 5usize), (6, 6), (3, 7), (11, 11)].iter() {
+    for scale in [1e-30, 1e30] {
+      let len = nx * ny;
+      if len > d.amp.len() {
+        continue;
+      }
+      let range = FrequencySpace::new((d.x.0, d.x.1, nx), (d.y.0, d.y.1, ny));
+      let j1: Vec<Complex<f64>> = d.amp[..len].iter().map(|z| *z * scale).collect();
+      let j2: Vec<Complex<f64>> = d.amp_sw[..len].iter().map(|z| *z * scale).collect();
+      out.push((format!("what=hom_rate nx={} ny={} tau=1.3e-13 amplitude_scale={:e}", nx, ny, scale), guard(|| re(spdcalc::hom_rate(range, &j1, &j2, 1.3e-13 * S, None)))));
+    }
+  }
+  // rayon adaptors through the two producers: counts 0, 1, 2 and larger, ascending / descending / equal endpoints
+  for &(a, b, n) in d.lines.iter() {
+    let seq: Vec<f64> = Steps(a, b, n).into_iter().collect();
+    let scale = a.abs().max(b.abs());
+    out.push((format!("what=exact-size/producer-iterator steps=({:e},{:e},{})", a, b, n), guard(|| Val::Flag(exact_size(Producer::into_iter(Steps(a, b, n).into_par_iter()), n) && exact_size(Steps(a, b, n).into_iter(), n)))));
+    adaptors(&format!("steps=({:e},{:e},{})", a, b, n), &|| Steps(a, b, n).into_par_iter(), &seq, &|x: &f64, y: &f64| rel_close(*x, *y, 1e-14, scale), &mut out);
+  }
+  for &(x, y) in d.planes.iter() {
+    let seq: Vec<(f64, f64)> = Steps2D(x, y).into_iter().collect();
+    out.push((format!("what=exact-size/producer-iterator steps2d=({:e},{:e},{})x({:e},{:e},{})", x.0, x.1, x.2, y.0, y.1, y.2), guard(|| {
+      let n = x.2 * y.2;
+      let (l, r) = Steps2D(x, y).into_par_iter().split_at(n / 2);
+      Val::Flag(exact_size(Producer::into_iter(Steps2D(x, y).into_par_iter()), n) && exact_size(Producer::into_iter(l), n / 2) && exact_size(Producer::into_iter(r), n - n / 2))
+    })));
+    adaptors(
+      &format!("steps2d=({:e},{:e},{})x({:e},{:e},{})", x.0, x.1, x.2, y.0, y.1, y.2),
+      &|| Steps2D(x, y).into_par_iter(),
+      &seq,
+      &|p: &(f64, f64), q: &(f64, f64)| p.0.to_bits() == q.0.to_bits() && p.1.to_bits() == q.1.to_bits(),
+      &mut out,
+    );
+    // `Iterator2D` is `Copy` and `new_partition` is public: windows of the grid, copies after partial consumption
+    let len = seq.len();
+    let it_eq = |v: &[(f64, f64)], e: &[(f64, f64)]| bits_eq(&flat(v), &flat(e));
+    let tag = format!("steps2d=({:e},{:e},{})x({:e},{:e},{})", x.0, x.1, x.2, y.0, y.1, y.2);
+    for (lo, hi) in [(0usize, len), (0, 0), (len, len), (len / 3, len / 3), (len / 3, (2 * len) / 3 + 1), (1, len)] {
+      if lo > hi || hi > len {
+        continue;
+      }
+      out.push((format!("what=iter2d/new_partition lo={} hi={} {}", lo, hi, tag), guard(|| {
+        let it = spdcalc::utils::Iterator2D::new_partition(Steps2D(x, y), lo, hi);
+        let fwd: Vec<(f64, f64)> = it.collect();
+        let mut bwd: Vec<(f64, f64)> = it.rev().collect();
+        bwd.reverse();
+        Val::Flag(it.len() == hi - lo && it_eq(&fwd, &seq[lo..hi]) && it_eq(&bwd, &seq[lo..hi]))
+      })));
+    }
+    out.push((format!("what=iter2d/copy-after-partial {}", tag), guard(|| {
+      let mut it = Steps2D(x, y).into_iter();
+      let k = len / 2;
+      let head: Vec<(f64, f64)> = it.by_ref().take(k).collect();
+      let copy = it; // Copy: both continue from the same state, independently
+      let rest1: Vec<(f64, f64)> = it.collect();
+      let mut rest2: Vec<(f64, f64)> = copy.rev().collect();
+      rest2.reverse();
+      let xy_ok = (0..len).all(|i| { let p = copy.get_xy(i); p.0.to_bits() == seq[i].0.to_bits() && p.1.to_bits() == seq[i].1.to_bits() });
+      Val::Flag(it_eq(&head, &seq[..k]) && it_eq(&rest1, &seq[k..]) && it_eq(&rest2, &seq[k..]) && xy_ok)
+    })));
+  }
+  // every integrator variant inside a parallel region (range evaluation and count rates on a 3×3 / 2×2 grid)
+  {
+    let range = FrequencySpace::new((d.x.0, d.x.1, 3), (d.y.0, d.y.1, 3));
+    let small = FrequencySpace::new((d.x.0, d.x.1, 2), (d.y.0, d.y.1, 2));
+    let hz = spdcalc::dim::ucum::HZ;
+    for &(name, integ, par1d, do2d) in d.integrators.iter() {
+      let sp = match guard(|| d.spdc.joint_spectrum(integ)) {
+        Some(sp) => sp,
+        None => {
+          out.push((format!("what=integrator/joint_spectrum integrator={}", name), None));
+          continue;
+        }
+      };
+      // 1-D quadrature per point: sequential unless Simpson switches to its parallel branch
+      let v1 = guard(|| {
+        let mut v = cbits(&sp.jsa_range(range));
+        v.extend(jbits(&sp.jsi_range(range.as_wavelength_space())));
+        v.extend(sp.jsi_normalized_range(range.as_sum_diff_space()));
+        v
+      });
+      out.push((format!("what=integrator/range1d integrator={}", name), v1.map(|v| if par1d { Val::Arr(v, 9) } else { bits(v) })));
+      out.push((format!("what=integrator/counts_coincidences integrator={}", name), guard(|| re(*(d.spdc.counts_coincidences(range, integ) / hz)))));
+      if do2d {
+        // 2-D quadrature per point: Simpson is a parallel sum, everything else sequential
+        let is_simpson = matches!(integ, Integrator::Simpson { .. });
+        let v2 = guard(|| {
+          let mut v = jbits(&sp.jsi_singles_range(small));
+          v.extend(sp.jsi_singles_idler_normalized_range(small.as_wavelength_space()));
+          v
+        });
+        out.push((format!("what=integrator/range2d integrator={}", name), v2.map(|v| if is_simpson { Val::Arr(v, 4) } else { bits(v) })));
+        out.push((format!("what=integrator/counts_singles_signal integrator={}", name), guard(|| re(*(d.spdc.counts_singles_signal(small, integ) / hz)))));
+      }
+    }
+  }
   for &divs in d.divs1.iter() {
     for (name, f, a, b) in SWEEP_F1.iter().copied() {
       out.push((format!("what=simpson1d f={} a={} b={} divs={}", name, a, b, divs), guard(|| Val::Num(Integrator::Simpson { divs }.integrate(f, a, b)))));
@@ -1000,26 +1251,86 @@ fn sweep_part(ctx: &mut Ctx) {
     amp,
     amp_sw,
     taus: vec![0.0, 1.3e-13, -4.0e-13],
+    lines: {
+      let mut l = vec![(0.0, 0.9, 0), (3.3, 4.0, 1), (0.0, 0.9, 2), (1.0, -1.0, 2), (2.5, 2.5, 3), (1.0, -1.0, 5), (1400e-9, 1600e-9, 16), (-0.0, 0.9, 65)];
+      if ctx.thorough {
+        l.extend([(0.0, 1.0, 3), (1600e-9, 1400e-9, 33), (2.5, 2.5, 128), (-3.0, 7.0, 1000)]);
+      }
+      l.push((gen_small(&mut ctx.rng), gen_small(&mut ctx.rng), ctx.rng.between(0, 40)));
+      l
+    },
+    planes: {
+      let mut l = vec![
+        ((0.0, 1.0, 0), (10.0, -3.0, 3)),
+        ((0.0, 1.0, 1), (10.0, -3.0, 1)),
+        ((1.0, 0.0, 1), (10.0, -3.0, 2)),
+        ((1.0, 0.0, 2), (2.5, 2.5, 1)),
+        ((0.0, 1.0, 2), (10.0, -3.0, 2)),
+        ((1.0, -1.0, 3), (2.5, 2.5, 5)),
+        ((1400e-9, 1600e-9, 8), (1700e-9, 1500e-9, 8)),
+      ];
+      if ctx.thorough {
+        l.extend([((0.0, 1.0, 40), (10.0, -3.0, 25)), ((0.0, 1.0, 1), (10.0, -3.0, 17)), ((0.0, 1.0, 17), (10.0, -3.0, 1))]);
+      }
+      l.push(((gen_small(&mut ctx.rng), gen_small(&mut ctx.rng), ctx.rng.between(0, 9)), (gen_small(&mut ctx.rng), gen_small(&mut ctx.rng), ctx.rng.between(0, 9))));
+      l
+    },
+    integrators: {
+      // (name, integrator, 1-D quadrature runs Simpson's parallel branch, also use for 2-D quadrature)
+      let mut l: Vec<(&'static str, Integrator, bool, bool)> = vec![
+        ("simpson50", Integrator::Simpson { divs: 50 }, false, false),
+        ("simpson8", Integrator::Simpson { divs: 8 }, false, true),
+        ("simpson9-odd", Integrator::Simpson { divs: 9 }, false, false),
+        ("simpson129-odd", Integrator::Simpson { divs: 129 }, true, false),
+        ("simpson130", Integrator::Simpson { divs: 130 }, true, false),
+        ("simpson201-odd", Integrator::Simpson { divs: 201 }, true, false),
+        ("gauss-legendre2", Integrator::GaussLegendre { degree: 2 }, false, true),
+        ("gauss-legendre7", Integrator::GaussLegendre { degree: 7 }, false, true),
+        ("adaptive-simpson", Integrator::AdaptiveSimpson { tolerance: 1e-6, max_depth: 8 }, false, true),
+        ("clenshaw-curtis", Integrator::ClenshawCurtis { tolerance: 1e-6 }, false, false),
+      ];
+      if ctx.thorough {
+        l.extend([
+          ("simpson128", Integrator::Simpson { divs: 128 }, false, false),
+          ("simpson400", Integrator::Simpson { divs: 400 }, true, false),
+          ("simpson16", Integrator::Simpson { divs: 16 }, false, true),
+          ("gauss-legendre20", Integrator::GaussLegendre { degree: 20 }, false, false),
+          ("gauss-legendre11", Integrator::GaussLegendre { degree: 11 }, false, true),
+          ("adaptive-simpson-tight", Integrator::AdaptiveSimpson { tolerance: 1e-8, max_depth: 9 }, false, false),
+          ("clenshaw-curtis-tight", Integrator::ClenshawCurtis { tolerance: 1e-9 }, false, false),
+        ]);
+      }
+      l
+    },
     divs1: if ctx.thorough { vec![128, 129, 130, 131, 132, 135, 144, 150, 160, 200, 256, 1000] } else { vec![128, 130, 131, 144, 200] },
     divs2: if ctx.thorough { vec![4, 6, 8, 10, 12, 14, 16, 18, 20, 24, 32, 64] } else { vec![4, 6, 8, 10, 12, 16, 24] },
   });
   let cap = Duration::from_secs(if ctx.thorough { 900 } else { 300 });
   let reps = if ctx.thorough { 3 } else { 1 };
   let mut reference: Option<Vec<(String, Option<Val>)>> = None;
+  // pool sizes 1..16, then the 1-thread pool once more: results must not depend on what ran before
+  // (history independence; rep=99 marks that last run)
+  let mut schedule: Vec<(usize, usize)> = Vec::new();
   for k in 1..=16usize {
     for rep in 0..reps {
       if k == 1 && rep > 0 {
         continue;
       }
+      schedule.push((k, rep));
+    }
+  }
+  schedule.push((1, 99));
+  {
+    for (k, rep) in schedule {
       let d = data.clone();
       let r = in_pool(k, cap, move || sweep_all(&d));
       match r {
         Err(()) => ctx.s("C15.reduce", false, "sweep/timeout", &format!("threads={} rep={} cap_s={}", k, rep, cap.as_secs())),
         Ok(None) => ctx.s("C15.reduce", false, "sweep/panic", &format!("threads={} rep={}", k, rep)),
         Ok(Some(v)) => {
-          let r0 = if k == 1 { v.clone() } else { reference.clone().unwrap_or_default() };
+          let r0 = if k == 1 && rep == 0 { v.clone() } else { reference.clone().unwrap_or_default() };
           for ((label, val), (_, v0)) in v.iter().zip(r0.iter()) {
-            let what = label.split(' ').next().unwrap_or("").trim_start_matches("what=").to_string();
+            let what = label.split(' ').next().unwrap_or("").trim_start_matches("what=").split('(').next().unwrap_or("").to_string();
             ctx.count(&format!("sweep/{}", what));
             let tail = format!("{} threads={} rep={}", label, k, rep);
             match (val, v0) {
@@ -1030,16 +1341,30 @@ fn sweep_part(ctx: &mut Ctx) {
                 let ok = b == b0;
                 ctx.s("C15.range", ok, &format!("sweep/{}/{}", what, if ok { "ok" } else { "not-bit-identical" }), &tail);
               }
+              (Some(Val::Arr(a, block)), Some(Val::Arr(a0, _))) => {
+                let (e, at, val) = worst_rel(a0, a, *block);
+                let ok = e <= 1e-12;
+                ctx.s("C15.reduce", ok, &format!("sweep/{}/{}", what, if ok { "ok" } else { "differs" }), &format!("{} worst_rel={:.3e} at={} value={:e}", tail, e, at, val));
+              }
               (Some(Val::Num(z)), Some(Val::Num(z0))) => {
                 let finite = z.re.is_finite() && z.im.is_finite();
-                let e = crel(*z0, *z);
+                // a HOM rate is ½(1 − Σ/N): the parallel reduction is Σ/N (of order 1), of which the rate is an
+                // affine function that cancels near a dip (|rate| ≪ 1); the statement's 1e-12 is relative to the
+                // reduction, so the rate is measured against max(|rate|, ½) (seed 11: rate −2.1e-4, |Δ| = 1 ulp of 1)
+                let e = if what.contains("hom_rate") {
+                  let d = ((z.re - z0.re).powi(2) + (z.im - z0.im).powi(2)).sqrt();
+                  let m = (z.re.hypot(z.im)).max(z0.re.hypot(z0.im)).max(0.5);
+                  if d == 0.0 { 0.0 } else { d / m }
+                } else {
+                  crel(*z0, *z)
+                };
                 let ok = finite && e <= 1e-12;
                 ctx.s("C15.reduce", ok, &format!("sweep/{}/{}", what, if ok { "ok" } else if !finite { "non-finite" } else { "differs" }), &format!("{} rel={:.3e} value=({:e},{:e}) one_thread=({:e},{:e})", tail, e, z.re, z.im, z0.re, z0.im));
               }
               _ => ctx.s("C15.reduce", false, &format!("sweep/{}/kind-mismatch", what), &tail),
             }
           }
-          if k == 1 {
+          if k == 1 && rep == 0 {
             reference = Some(v);
           }
         }
@@ -1098,6 +1423,31 @@ fn split_part(ctx: &mut Ctx) {
     let ny = ctx.rng.below(9);
     let k = ctx.rng.below(nx * ny + 2);
     split2_case(ctx, (e[0], e[1], nx), (e[2], e[3], ny), k);
+  }
+
+  // ---- exact-size contract: `len()` before and after every pull of a front/back script (ties the model's `len`)
+  for n in 0..=(if ctx.thorough { 12usize } else { 6 }) {
+    for rep in 0..3 {
+      let (a, b) = fixed[(n + rep) % fixed.len()];
+      let sc: String = (0..n + 3).map(|_| if ctx.rng.coin() { 'F' } else { 'B' }).collect();
+      let mut it = Steps(a, b, n).into_iter();
+      let mut lens = vec![it.len().to_string()];
+      for c in sc.chars() {
+        if c == 'F' { it.next(); } else { it.next_back(); }
+        lens.push(it.len().to_string());
+      }
+      ctx.k("steps_lens", &format!("{} {}", args1(a, b, n), sc), &lens.join(" "));
+      let (nx, ny) = (n % 4, n / 2);
+      let (x, y) = ((0.0, 1.0, nx), (10.0, -3.0, ny));
+      let sc: String = (0..nx * ny + 3).map(|_| if ctx.rng.coin() { 'F' } else { 'B' }).collect();
+      let mut it = Steps2D(x, y).into_iter();
+      let mut lens = vec![it.len().to_string()];
+      for c in sc.chars() {
+        if c == 'F' { it.next(); } else { it.next_back(); }
+        lens.push(it.len().to_string());
+      }
+      ctx.k("steps2d_lens", &format!("{} {}", args2(x, y), sc), &lens.join(" "));
+    }
   }
 
   // ---- all proper trees for small lengths
